@@ -17,7 +17,8 @@ mod h {
     #[kani::stub(core::fmt::write, no_fmt)]
     #[kani::stub(netflow_parser::variable_versions::v9::FlowSet::parse, flowset_model)]
     fn p_v9_packet() {
-        let buf: [u8; 18 + 8] = kani::any();
+        let mut buf: [u8; 18 + 12] = kani::any();
+        buf[0] = 0; buf[20] = 0; buf[21] = 8; buf[28] = 0; buf[29] = 3;   // set lengths written: 8 then 3 (<4)
         let count = ((buf[0] as u16) << 8) | buf[1] as u16;
         kani::assume(count <= 2);
         let mut p = V9Parser::default();
@@ -29,10 +30,11 @@ mod h {
                 // consumed = 18 + sum max(len,4)
                 let mut used = 18usize; let mut k = 0;
                 while k < v.flowsets.len() { let l = v.flowsets[k].header.length as usize; used += if l < 4 { 4 } else { l }; k += 1; }
-                assert!(rem.len() == 26 - used);
+                assert!(rem.len() == 30 - used);
                 assert!(v.flowsets.len() == count as usize || rem.is_empty());
                 kani::cover!(v.flowsets.len() == 2);
                 kani::cover!(v.flowsets.len() == 1 && rem.len() == 4);
+                kani::cover!(v.flowsets.len() == 2 && rem.is_empty());
             }
             Err(_) => { kani::cover!(true); }
         }
